@@ -1,6 +1,6 @@
 """C07 — decimal conversion accuracy. Spec: BigNat.tla, MBFBig.tla, DecimalBig.tla (the spec parses the digit strings),
 trace spec C07_Trace (print / read clauses evaluated with exact arithmetic)."""
-import io, os, re, time
+import io, os, re, json, time
 from fractions import Fraction
 from ..session import Sess, find_errors
 from .. import core
@@ -183,9 +183,205 @@ def token_number(code):
     return None
 
 
+FORMS = {(True, False): 'print', (False, False): 'write', (False, True): 'list', (True, True): 'print_sigil'}
+FLAGS = {v: k for k, v in FORMS.items()}
+SETVAR = {2: ('A%', 'CVI'), 4: ('A!', 'CVS'), 8: ('A#', 'CVD')}
+
+
+class Driver(object):
+    """Performs conversions on the real interpreter and records one event per conversion."""
+
+    def __init__(self):
+        self.s = s = Sess()
+        from pcbasic.basic.values import values as V, numbers as N
+        from pcbasic.basic.base import codestream
+        self.V, self.N, self.codestream = V, N, codestream
+        self.vals = s.impl.values
+        self.handler = self.vals.error_handler
+        self.events = []
+        self.cnt = {}
+        # watchdog for the keyboard INPUT path: an INPUT that asks again (?Redo from start) would wait for keys for ever;
+        # the wait loop of the event queues is counted and broken off (the event is then reported as 'internal')
+        self.guard = guard = {'n': 0}
+        queues = s.impl.queues
+        orig_wait = queues.wait
+
+        def guarded_wait():
+            guard['n'] += 1
+            if guard['n'] > 300:
+                guard['n'] = 0
+                from pcbasic.basic.base import error
+                raise error.Break()
+            orig_wait()
+        queues.wait = guarded_wait
+
+    def close(self):
+        self.s.close()
+
+    def mk(self, b):
+        N = self.N
+        return {2: N.Integer, 4: N.Single, 8: N.Double}[len(b)](None, self.vals).from_bytes(bytearray(b))
+
+    def ev_print(self, form, b, text, cls, **extra):
+        e = {'dir': 'print', 'form': form, 'b': list(b), 'text': list(bytearray(text)), 'cls': cls}
+        e.update(extra)
+        self.events.append(e)
+        self.cnt['print/' + form] = self.cnt.get('print/' + form, 0) + 1
+
+    def ev_read(self, via, text, k, code, b, wid, cls, **extra):
+        e = {'dir': 'read', 'via': via, 'text': list(bytearray(text)), 'k': k, 'code': code, 'b': list(b), 'wid': wid, 'cls': cls}
+        e.update(extra)
+        self.events.append(e)
+        self.cnt['read/' + via] = self.cnt.get('read/' + via, 0) + 1
+
+    def internal(self, what, detail, cls):
+        self.events.append({'dir': 'internal', 'form': what, 'detail': detail, 'cls': cls, 'b': [], 'text': []})
+
+    # ---- printing ---------------------------------------------------------------------------------------------
+    def print_repr(self, b, form, cls):
+        """values.to_repr with the flag combination of PRINT/STR$, WRITE, LIST."""
+        ls, ts = FLAGS[form]
+        try:
+            self.ev_print(form, b, self.V.to_repr(self.mk(b), leading_space=ls, type_sign=ts), cls)
+        except BaseException as ex:  # noqa
+            self.internal('to_repr', '%s: %s' % (type(ex).__name__, ex), cls)
+
+    def print_basic(self, b, cls):
+        """PRINT, WRITE, STR$ executed in the Session on a variable holding exactly these bytes."""
+        s = self.s
+        var, cv = SETVAR[len(b)]
+        s.s.set_variable('T$', bytes(bytearray(b)))
+        r = s.ex('%s=%s(T$):PRINT %s:WRITE %s:PRINT STR$(%s);"|"' % (var, cv, var, var, var))
+        lines = r[2].split(b'\r\n') if r[0] == 'ok' else []
+        if r[0] != 'ok' or len(lines) < 3 or not lines[2].endswith(b'|'):
+            self.internal('PRINT', repr(r[:3])[:300], cls)
+        else:
+            self.ev_print('PRINT', b, lines[0], cls)
+            self.ev_print('WRITE', b, lines[1], cls)
+            self.ev_print('STR$', b, lines[2][:-1], cls)
+
+    def print_listtoken(self, b, cls):
+        """LIST of a hand-made number token (binds lister + to_str with type sign)."""
+        line = b'\x00\x01\x01\x0a\x00X\xe7' + (b'\x1d' if len(b) == 4 else b'\x1f') + bytes(bytearray(b)) + b'\x00'
+        st = self.codestream.TokenisedStream()
+        st.write(line)
+        st.seek(1)
+        try:
+            num, text, _ = self.s.impl.lister.detokenise_line(st)
+            text = bytes(text)
+            if not text.startswith(b'10 X='):
+                self.internal('LISTTOKEN', repr(text), cls)
+            else:
+                self.ev_print('LISTTOKEN', b, text[5:], cls)
+        except BaseException as ex:  # noqa
+            self.internal('LISTTOKEN', '%s: %s' % (type(ex).__name__, ex), cls)
+
+    # ---- reading ----------------------------------------------------------------------------------------------
+    def read_repr(self, t, nonnum, soft, cls):
+        """Values.from_repr directly; float error handler raising or soft."""
+        s, N = self.s, self.N
+        self.handler.suspend(not soft)
+        s.take()
+        try:
+            x = self.vals.from_repr(t, allow_nonnum=nonnum)
+            out = s.take() if soft else b''
+            errs = find_errors(out) if out else []
+            if not isinstance(x, N.Number):
+                self.internal('from_repr', repr(x), cls)
+            elif errs:
+                self.ev_read('repr', t, 'soft', errs[0][0], x.to_bytes(), False, cls, nonnum=nonnum, soft=soft)
+            else:
+                self.ev_read('repr', t, 'val', 0, x.to_bytes(), False, cls, nonnum=nonnum, soft=soft)
+        except BaseException as ex:  # noqa
+            if type(ex).__name__ == 'BASICError':
+                self.ev_read('repr', t, 'err', int(ex.err), [], False, cls, nonnum=nonnum, soft=soft)
+            else:
+                self.internal('from_repr', '%s: %s on %r' % (type(ex).__name__, ex, t), cls)
+        self.handler.suspend(False)
+
+    def read_val(self, t, cls):
+        """VAL through the expression evaluator, observed as a double (exact widening)."""
+        s = self.s
+        s.s.set_variable('T$', t)
+        r = s.ev('MKD$(VAL(T$))')
+        if r[0] == 'ok' and isinstance(r[1], bytes) and len(r[1]) == 8:
+            self.ev_read('VAL', t, 'val', 0, bytearray(r[1]), True, cls)
+        elif r[0] == 'soft' and isinstance(r[3], bytes):
+            self.ev_read('VAL', t, 'soft', r[1], bytearray(r[3]), True, cls)
+        elif r[0] == 'err':
+            self.ev_read('VAL', t, 'err', r[1], [], True, cls)
+        else:
+            self.internal('VAL', repr(r[:2])[:300], cls)
+
+    def read_literal(self, t, cls):
+        """Program literal through the tokeniser (text t, unsigned), then LIST of the stored line."""
+        s = self.s
+        r = s.ex('10 X#=' + t)
+        code = bytes(s.impl.program.bytecode.getvalue())
+        tok = token_number(code) if r[0] == 'ok' else None
+        tb = t.encode('latin-1')
+        if r[0] == 'err' and r[1] == 6:
+            self.ev_read('literal', tb, 'err', 6, [], False, cls)
+        elif tok is None:
+            self.internal('literal', repr((r[:3], code))[:300], cls)
+        else:
+            self.ev_read('literal', tb, 'val', 0, tok, False, cls)
+            r2 = s.ex('LIST')
+            m = re.match(br'10 X#=(.*?)\r\n', r2[2]) if r2[0] == 'ok' else None
+            if not m:
+                self.internal('LIST', repr(r2[:3])[:300], cls)
+            else:
+                self.ev_print('LIST', tok, m.group(1), cls, literal=t)
+        s.ex('NEW')
+
+    def read_input(self, t, cls):
+        """Keyboard INPUT into a double variable."""
+        s = self.s
+        s.s.press_keys(t + '\r')
+        self.guard['n'] = 0
+        r = s.ex('INPUT A#')
+        r2 = s.ev('MKD$(A#)')
+        if r[0] != 'ok' or r2[0] != 'ok' or b'Redo' in r[2]:
+            self.internal('INPUT', repr((t, r[:3], r2[:2]))[:300], cls)
+        else:
+            self.ev_read('INPUT', t.encode('latin-1'), 'val', 0, bytearray(r2[1]), True, cls)
+
+    def read_data(self, t, cls):
+        """READ from a DATA line into a double variable."""
+        s = self.s
+        r = s.ex('10 DATA ' + t)
+        r1 = s.ex('RESTORE:READ A#')
+        r2 = s.ev('MKD$(A#)')
+        if r[0] != 'ok' or r1[0] != 'ok' or r2[0] != 'ok':
+            self.internal('READ', repr((t, r[:3], r1[:3], r2[:2]))[:300], cls)
+        else:
+            self.ev_read('READ', t.encode('latin-1'), 'val', 0, bytearray(r2[1]), True, cls)
+        s.ex('NEW')
+
+
+def decorate(rng, t, sign=True, sigil=True, blank=' ', mantissa_only=False):
+    """Add a type sign, a sign, blanks.  mantissa_only: blanks only before the exponent letter (program text and DATA
+    items are cut into tokens by the tokeniser: a blank after the exponent letter ends the literal there)."""
+    if sigil and not re.search('[EDed!#]', t) and rng.random() < 0.2:
+        t += rng.choice('!#')
+    if sign and t[:1] not in ('+', '-') and rng.random() < 0.3:
+        t = rng.choice('+-') + t
+    if blank and rng.random() < 0.25:
+        if mantissa_only:
+            m = re.search('[EDed!#]', t)
+            k = m.start() if m else len(t)
+            t = blanks(rng, t[:k], blank).lstrip(blank) + t[k:]
+        else:
+            t = blanks(rng, t, blank)
+    return t
+
+
+RULE = ('one event per conversion performed by the real interpreter, judged by TLC (C07_Trace) against the exact value; '
+        'distinct = distinct (direction, path/form, value bytes or text); non-trivial = all except zero values')
+
+
 def run(ctx):
-    ctx.cov['rule'] = ('one event per conversion performed by the real interpreter, judged by TLC (C07_Trace) against the exact value; '
-                       'distinct = distinct (direction, path/form, value bytes or text); non-trivial = all except zero values')
+    ctx.cov['rule'] = RULE
     if os.environ.get('VF_SKIP_ORACLE_SELFCHECK') == '1':
         # only for mutant testing of the implementation (the oracle itself is unchanged there)
         print('note: BigNat self-check skipped (VF_SKIP_ORACLE_SELFCHECK=1)')
@@ -197,197 +393,51 @@ def run(ctx):
         if r['distinct'] < 1000:
             raise core.MachineryError('BigNat self-check explored only %d states' % r['distinct'])
     t0 = time.time()
-    s = Sess()
-    from pcbasic.basic.values import values as V, numbers as N
-    from pcbasic.basic.base import codestream
-    vals = s.impl.values
-    handler = vals.error_handler
+    d = Driver()
     rng = ctx.rng
-    events = []
-    cnt = {}
-
-    def mk(b):
-        return {2: N.Integer, 4: N.Single, 8: N.Double}[len(b)](None, vals).from_bytes(bytearray(b))
-
-    def ev_print(form, b, text, cls, extra=None):
-        e = {'dir': 'print', 'form': form, 'b': list(b), 'text': list(bytearray(text)), 'cls': cls}
-        if extra:
-            e.update(extra)
-        events.append(e)
-        cnt['print/' + form] = cnt.get('print/' + form, 0) + 1
-
-    def internal(what, detail, cls):
-        events.append({'dir': 'internal', 'form': what, 'detail': detail, 'cls': cls, 'b': [], 'text': []})
-
-    # ---- printing ---------------------------------------------------------------------------------------------
-    FORMS = {(True, False): 'print', (False, False): 'write', (False, True): 'list', (True, True): 'print_sigil'}
+    # ---- printing
     values = gen_values(rng, ctx.pick(2600, 60000))
-    setvar = {2: ('A%', 'CVI'), 4: ('A!', 'CVS'), 8: ('A#', 'CVD')}
     for idx, (cls, b) in enumerate(values):
-        x = mk(b)
-        for (ls, ts), form in FORMS.items():
+        for form in ('print', 'write', 'list', 'print_sigil'):
             if form == 'print_sigil' and idx % 4:
                 continue
-            try:
-                ev_print(form, b, V.to_repr(x, leading_space=ls, type_sign=ts), cls)
-            except BaseException as ex:  # noqa
-                internal('to_repr', '%s: %s' % (type(ex).__name__, ex), cls)
+            d.print_repr(b, form, cls)
         if idx % ctx.pick(6, 12) == 0:
-            # the same through BASIC statements
-            var, cv = setvar[len(b)]
-            s.s.set_variable('T$', bytes(bytearray(b)))
-            r = s.ex('%s=%s(T$):PRINT %s:WRITE %s:PRINT STR$(%s);"|"' % (var, cv, var, var, var))
-            lines = r[2].split(b'\r\n') if r[0] == 'ok' else []
-            if r[0] != 'ok' or len(lines) < 3 or not lines[2].endswith(b'|'):
-                internal('PRINT', repr(r[:3])[:300], cls)
-            else:
-                ev_print('PRINT', b, lines[0], cls)
-                ev_print('WRITE', b, lines[1], cls)
-                ev_print('STR$', b, lines[2][:-1], cls)
+            d.print_basic(b, cls)
         if idx % 3 == 0 and len(b) in (4, 8):
-            # LIST of a hand-made number token (binds lister + to_str with type sign)
-            line = b'\x00\x01\x01\x0a\x00X\xe7' + (b'\x1d' if len(b) == 4 else b'\x1f') + bytes(bytearray(b)) + b'\x00'
-            st = codestream.TokenisedStream()
-            st.write(line)
-            st.seek(1)
-            try:
-                num, text, _ = s.impl.lister.detokenise_line(st)
-                text = bytes(text)
-                if not text.startswith(b'10 X='):
-                    internal('LISTTOKEN', repr(text), cls)
-                else:
-                    ev_print('LISTTOKEN', b, text[5:], cls)
-            except BaseException as ex:  # noqa
-                internal('LISTTOKEN', '%s: %s' % (type(ex).__name__, ex), cls)
-
-    # ---- reading ----------------------------------------------------------------------------------------------
-    # watchdog for the keyboard INPUT path: an INPUT that asks again (?Redo from start) would wait for keys for ever;
-    # the wait loop of the event queues is counted and broken off (the event is then reported as 'internal')
-    guard = {'n': 0}
-    queues = s.impl.queues
-    orig_wait = queues.wait
-
-    def guarded_wait():
-        guard['n'] += 1
-        if guard['n'] > 300:
-            guard['n'] = 0
-            from pcbasic.basic.base import error
-            raise error.Break()
-        orig_wait()
-    queues.wait = guarded_wait
-    def ev_read(via, text, k, code, b, wid, cls):
-        events.append({'dir': 'read', 'via': via, 'text': list(bytearray(text)), 'k': k, 'code': code, 'b': list(b), 'wid': wid,
-                       'cls': cls})
-        cnt['read/' + via] = cnt.get('read/' + via, 0) + 1
-
-    def decorate(t, sign=True, sigil=True, blank=' ', mantissa_only=False):
-        """Add a type sign, a sign, blanks.  mantissa_only: blanks only before the exponent letter (program text and DATA
-        items are cut into tokens by the tokeniser: a blank after the exponent letter ends the literal there)."""
-        if sigil and not re.search('[EDed!#]', t) and rng.random() < 0.2:
-            t += rng.choice('!#')
-        if sign and t[:1] not in ('+', '-') and rng.random() < 0.3:
-            t = rng.choice('+-') + t
-        if blank and rng.random() < 0.25:
-            if mantissa_only:
-                m = re.search('[EDed!#]', t)
-                k = m.start() if m else len(t)
-                t = blanks(rng, t[:k], blank).lstrip(blank) + t[k:]
-            else:
-                t = blanks(rng, t, blank)
-        return t
-
+            d.print_listtoken(b, cls)
+    # ---- reading
     texts = gen_texts(rng, ctx.pick(4200, 90000))
     # round trip: printed forms are read back
-    for e in list(events)[::ctx.pick(9, 9)]:
+    for e in list(d.events)[::9]:
         if e['dir'] == 'print' and e['form'] in ('write', 'list'):
             texts.append(('printed', bytes(bytearray(e['text'])).decode('latin-1')))
     for idx, (cls, t0_) in enumerate(texts):
-        # direct: Values.from_repr, both allow_nonnum settings, raising and soft float error handling
-        t = decorate(t0_, blank=' \t\n' if idx % 3 == 0 else ' ').encode('latin-1')
-        soft = idx % 5 == 0
-        handler.suspend(not soft)
-        s.take()
-        try:
-            x = vals.from_repr(t, allow_nonnum=bool(idx % 2))
-            out = s.take() if soft else b''
-            errs = find_errors(out) if out else []
-            if not isinstance(x, N.Number):
-                internal('from_repr', repr(x), cls)
-            elif errs:
-                ev_read('repr', t, 'soft', errs[0][0], x.to_bytes(), False, cls)
-            else:
-                ev_read('repr', t, 'val', 0, x.to_bytes(), False, cls)
-        except BaseException as ex:  # noqa
-            if type(ex).__name__ == 'BASICError':
-                ev_read('repr', t, 'err', int(ex.err), [], False, cls)
-            else:
-                internal('from_repr', '%s: %s on %r' % (type(ex).__name__, ex, t), cls)
-        handler.suspend(False)
+        t = decorate(rng, t0_, blank=' \t\n' if idx % 3 == 0 else ' ').encode('latin-1')
+        d.read_repr(t, nonnum=bool(idx % 2), soft=(idx % 5 == 0), cls=cls)
         sel = idx % ctx.pick(5, 8)
         if sel == 0:
-            # VAL through the expression evaluator, observed as a double (exact widening)
-            t = decorate(t0_).encode('latin-1')
-            s.s.set_variable('T$', t)
-            r = s.ev('MKD$(VAL(T$))')
-            if r[0] == 'ok' and isinstance(r[1], bytes) and len(r[1]) == 8:
-                ev_read('VAL', t, 'val', 0, bytearray(r[1]), True, cls)
-            elif r[0] == 'soft' and isinstance(r[3], bytes):
-                ev_read('VAL', t, 'soft', r[1], bytearray(r[3]), True, cls)
-            elif r[0] == 'err':
-                ev_read('VAL', t, 'err', r[1], [], True, cls)
-            else:
-                internal('VAL', repr(r[:2])[:300], cls)
+            d.read_val(decorate(rng, t0_).encode('latin-1'), cls)
         elif sel == 1:
-            # program literal through the tokeniser (unsigned; blanks may be embedded), then LIST of the stored line
-            t = decorate(t0_.lstrip('+-'), sign=False, mantissa_only=True).strip(' ')
-            r = s.ex('10 X#=' + t)
-            code = bytes(s.impl.program.bytecode.getvalue())
-            tok = token_number(code) if r[0] == 'ok' else None
-            if r[0] == 'err' and r[1] == 6:
-                ev_read('literal', t.encode('latin-1'), 'err', 6, [], False, cls)
-            elif r[0] == 'ok' and find_errors(r[2]):
-                ev_read('literal', t.encode('latin-1'), 'soft', find_errors(r[2])[0][0], tok or [], False, cls)
-            elif tok is None:
-                internal('literal', repr((r[:3], code))[:300], cls)
-            else:
-                ev_read('literal', t.encode('latin-1'), 'val', 0, tok, False, cls)
-                r2 = s.ex('LIST')
-                m = re.match(br'10 X#=(.*?)\r\n', r2[2]) if r2[0] == 'ok' else None
-                if not m:
-                    internal('LIST', repr(r2[:3])[:300], cls)
-                else:
-                    ev_print('LIST', tok, m.group(1), cls)
-            s.ex('NEW')
+            d.read_literal(decorate(rng, t0_.lstrip('+-'), sign=False, mantissa_only=True).strip(' '), cls)
         elif sel == 2 and not in_danger(t0_):
-            # keyboard INPUT into a double variable
-            t = decorate(t0_, blank=' ')
-            s.s.press_keys(t + '\r')
-            guard['n'] = 0
-            r = s.ex('INPUT A#')
-            r2 = s.ev('MKD$(A#)')
-            if r[0] != 'ok' or r2[0] != 'ok' or b'Redo' in r[2]:
-                internal('INPUT', repr((t, r[:3], r2[:2]))[:300], cls)
-            else:
-                ev_read('INPUT', t.encode('latin-1'), 'val', 0, bytearray(r2[1]), True, cls)
+            d.read_input(decorate(rng, t0_, blank=' '), cls)
         elif sel == 3 and not in_danger(t0_):
-            # READ from a DATA line into a double variable
-            t = decorate(t0_, blank=' ', mantissa_only=True)
-            r = s.ex('10 DATA ' + t)
-            r1 = s.ex('RESTORE:READ A#')
-            r2 = s.ev('MKD$(A#)')
-            if r[0] != 'ok' or r1[0] != 'ok' or r2[0] != 'ok':
-                internal('READ', repr((t, r[:3], r1[:3], r2[:2]))[:300], cls)
-            else:
-                ev_read('READ', t.encode('latin-1'), 'val', 0, bytearray(r2[1]), True, cls)
-            s.ex('NEW')
-    s.close()
+            d.read_data(decorate(rng, t0_, blank=' ', mantissa_only=True), cls)
+    d.close()
     ctx.cov['impl_wall_s'] = round(time.time() - t0, 1)
-    ctx.cov['events_by_path'] = cnt
+    ctx.cov['events_by_path'] = d.cnt
+    judge(ctx, d.events)
+
+
+def judge(ctx, events):
+    """TLC (C07_Trace) judges every event; rejected events are reported."""
     for e in events:
         ctx.count([e['dir'], e.get('form') or e.get('via'), e['b'] if e['dir'] == 'print' else e['text']],
                   nontrivial=not (e['dir'] == 'print' and (not e['b'] or e['b'][-1] == 0 and len(e['b']) != 2)))
-    for i in (0, 1, len(events) // 3, len(events) // 2, len(events) - 2, len(events) - 1):
-        ctx.sample(show(events[i]))
+    for i in sorted(set((0, 1, len(events) // 3, len(events) // 2, len(events) - 2, len(events) - 1))):
+        if 0 <= i < len(events):
+            ctx.sample(show(events[i]))
     clean = []
     for e in events:
         if e['dir'] == 'print':
@@ -397,7 +447,7 @@ def run(ctx):
                           'wid': e['wid']})
         else:
             clean.append({'dir': 'internal'})
-    verdicts = validate_parallel(ctx, 'C07_Trace', clean, jobs=ctx.pick(2, 8))
+    verdicts = validate_parallel(ctx, 'C07_Trace', clean, jobs=ctx.pick(2, 8) if len(clean) > 2000 else 1)
     clauses = {}
     for (i, clause) in verdicts:
         e = events[i - 1]
@@ -414,6 +464,47 @@ def run(ctx):
                         'numbers are observed through their byte buffers / MKD$ / the number token of the tokenised line',
                         'the printed field is the console line (PRINT, WRITE), the text before the "|" marker (STR$), the text '
                         'after "10 X#=" (LIST)']
+
+
+def replay(ctx, path):
+    """Re-execute the rejected conversions recorded in a replay file on the current tree and judge them again."""
+    ctx.cov['rule'] = RULE
+    with open(path) as f:
+        doc = json.load(f)
+    d = Driver()
+    for v in doc.get('violations', []):
+        e = v.get('data') or {}
+        if not isinstance(e, dict) or e.get('dir') not in ('print', 'read'):
+            continue
+        cls = e.get('cls', 'replay')
+        b = list(bytearray.fromhex(e.get('b', '')))
+        text = e.get('text', '')
+        if e['dir'] == 'print':
+            form = e.get('form')
+            if form in FLAGS:
+                d.print_repr(b, form, cls)
+            elif form in ('PRINT', 'WRITE', 'STR$'):
+                d.print_basic(b, cls)
+            elif form == 'LIST' and e.get('literal'):
+                d.read_literal(e['literal'], cls)
+            elif len(b) in (4, 8):
+                d.print_listtoken(b, cls)
+        else:
+            via = e.get('via')
+            if via == 'repr':
+                d.read_repr(text.encode('latin-1'), bool(e.get('nonnum', True)), bool(e.get('soft', False)), cls)
+            elif via == 'VAL':
+                d.read_val(text.encode('latin-1'), cls)
+            elif via == 'literal':
+                d.read_literal(text, cls)
+            elif via == 'INPUT':
+                d.read_input(text, cls)
+            elif via == 'READ':
+                d.read_data(text, cls)
+    d.close()
+    if not d.events:
+        raise core.MachineryError('nothing to replay in %s' % path)
+    judge(ctx, d.events)
 
 
 def in_danger(t):
